@@ -1,0 +1,33 @@
+//go:build verif
+
+package rewriter
+
+import (
+	"fmt"
+	"path/filepath"
+	"strings"
+
+	"github.com/goghcrow/go-ast-matcher"
+	"github.com/goghcrow/go-loader"
+	"github.com/goghcrow/go-matcher"
+)
+
+// VerifRewriteStage is a verification hook (build tag "verif" only): it runs exactly the first
+// stage of Compile - the same rewriteAllFiles with the same printer - and writes the
+// unoptimised output to dstDir instead of a temporary directory that Compile removes.
+func VerifRewriteStage(srcDir, dstDir string, opts ...loader.Option) {
+	srcDir, err := filepath.Abs(srcDir)
+	panicIf(err)
+	dstDir = mustMkDir(dstDir)
+
+	resetLog()
+	r := mkRewriter(astmatcher.New(
+		loader.MustNew(srcDir, append(opts, loader.WithLoadDepts())...),
+		matcher.New(),
+	))
+	comment := fmt.Sprintf(fileComment, defaultBuildTag)
+	r.rewriteAllFiles(func(filename string, f *loader.File) {
+		filename = strings.ReplaceAll(filename, srcDir, dstDir)
+		f.WriteWithComment(filename, comment)
+	})
+}
